@@ -335,6 +335,32 @@ func runC17(d *drv, r *rand.Rand, thorough bool, custom []*entities.InfoElement)
 			}
 		}
 	}
+	// a template of known elements, re-defined with an unknown element in it, then data laid out for the new definition:
+	// whatever the mode does with the new definition, the old one is not what the data is read with
+	for i := 0; i < 12; i++ {
+		old := []absv.Spec{absv.SpecOf(kFixed), {ID: 4, Len: 1}, absv.SpecOf(kFixed)}
+		unk := kinds[2+r.Intn(3)](r)
+		nw := []slot{{absv.SpecOf(kFixed), "unsigned16"}, unk, {absv.SpecOf(kVar), "string"}}
+		specs := []absv.Spec{nw[0].spec, nw[1].spec, nw[2].spec}
+		var body []byte
+		for _, sl := range nw {
+			n := sl.spec.Len
+			if n == 65535 {
+				n = r.Intn(6)
+			}
+			v := make([]int, n)
+			for j := range v {
+				v[j] = r.Intn(256)
+			}
+			body = append(body, absv.EncodeAbs(sl.typ, sl.spec.Len, v)...)
+		}
+		for _, m := range modes {
+			s := d.open(m, "redef")
+			s.recv(tmplMsg(9, 300, old))
+			s.recv(tmplMsg(9, 300, specs))
+			s.recv(dataMsg(9, 300, body))
+		}
+	}
 	// wide templates (65..80 fields): unknown elements beyond position 64
 	for i := 0; i < 6; i++ {
 		nf := 65 + r.Intn(16)
